@@ -54,10 +54,12 @@ Step(e) ==
       [] e.k = "TaskEnd" -> IsW(e.th) /\ WTaskEnd(e.th) /\ ClassOf(wcur[e.th]) = e.task
       [] e.k = "S3Begin" ->
             IF e.op = "AbortMultipartUpload" THEN AnnAbortBegin(e.th)
+            ELSE IF e.op = "HeadObject" THEN e.th = "sub" /\ SubHeadBegin
             ELSE /\ IsW(e.th) /\ WMainBegin(e.th) /\ OpOf(wcur[e.th]) = e.op
                  /\ e.part = (IF wcur[e.th] \in 1..P THEN wcur[e.th] ELSE 0)
       [] e.k = "S3End" ->
             IF e.op = "AbortMultipartUpload" THEN AnnAbortEnd(e.th, e.oc)
+            ELSE IF e.op = "HeadObject" THEN e.th = "sub" /\ SubHeadEnd(IF e.oc = "ok" THEN "ok" ELSE "fault")
             ELSE /\ IsW(e.th) /\ OpOf(wcur[e.th]) = e.op
                  /\ IF e.oc = "body-error" THEN WMainInterrupted(e.th) ELSE WMainEnd(e.th, e.oc)
       [] e.k = "SetResult" -> IsW(e.th) /\ wcur[e.th] = Final /\ WOk(e.th) /\ status' = e.st
